@@ -558,11 +558,22 @@ func firstRoot(m *Machine) string {
 
 var allFrontEnds = append(append([]feSpec{}, jsonFrontEnds...), senFrontEnds...)
 
-func ruleEscapeDecode(prog *Program, rep *Report) {
+func ruleEscapeDecode(prog *Program, rep *Report, rels ...string) {
 	rep.Rules = append(rep.Rules,
 		"N-esc: in every front-end the escape table marks exactly the RFC 8259 escape letters (\" \\ / b f n r t) plus u (the SEN front-ends may also allow the other quote character), and the decode table maps each letter to the byte it denotes",
 		"N-hex: the \\u table marks exactly the 22 hex digits, and for every hex digit the \\u arm, interpreted with the rune accumulator 0, leaves exactly the digit's value in it")
 	for _, spec := range allFrontEnds {
+		if len(rels) > 0 {
+			in := false
+			for _, r := range rels {
+				if r == spec.rel {
+					in = true
+				}
+			}
+			if !in {
+				continue
+			}
+		}
 		m, err := ExtractMachine(prog, spec.rel, spec.typ, spec.roots[:1])
 		if err != nil {
 			rep.Errorf("%v", err)
